@@ -260,6 +260,15 @@ var solvers = []solverSpec{
 	{"z3-new/seed42", func(f string, t int) []string {
 		return []string{"z3-new", fmt.Sprintf("timeout=%d", t), "smt.random_seed=42", "sat.random_seed=42", f}
 	}},
+	{"z3-new/seed2", func(f string, t int) []string {
+		return []string{"z3-new", fmt.Sprintf("timeout=%d", t), "smt.random_seed=2", "sat.random_seed=2", f}
+	}},
+	{"z3-new/seed3", func(f string, t int) []string {
+		return []string{"z3-new", fmt.Sprintf("timeout=%d", t), "smt.random_seed=3", "sat.random_seed=3", f}
+	}},
+	{"z3-new/seed11", func(f string, t int) []string {
+		return []string{"z3-new", fmt.Sprintf("timeout=%d", t), "smt.random_seed=11", "sat.random_seed=11", f}
+	}},
 	{"z3-new/cs3", func(f string, t int) []string {
 		return []string{"z3-new", fmt.Sprintf("timeout=%d", t), "auto_config=false", "smt.case_split=3", f}
 	}},
@@ -431,7 +440,7 @@ func (e *Engine) Discharge(results []*FuncResult, so SolveOpts) {
 		}
 		wg2.Wait()
 	}
-	runStage(retry, []solverSpec{solvers[0], solvers[6]}, 8)
+	runStage(retry, []solverSpec{solvers[0], solvers[len(solvers)-1]}, 8)
 	var retry2 []*Obl
 	for _, o := range retry {
 		if o.Status != "unsat" && o.Status != "sat" {
